@@ -212,7 +212,51 @@ func (g *gen) add(in *Input) obs {
 	if o.panic {
 		g.rep.Fail("c04-panic", "panic or nil/nil result: "+o.msg, in)
 	}
+	if in.Kind == "hash" && in.GoKind == "string" {
+		g.datasetPath(in, o)
+	}
 	return o
+}
+
+// datasetPath: the same lexical form as the object literal of a one-quad RDF dataset, through EntriesFromRDFWithHasher and
+// RDFEntry.ValueMtEntry (the route a merklized document takes).  The encoding of a value does not depend on the entry point:
+// same outcome class and same field element as HashValueWithHasher (which the Coq model is compared with).
+func (g *gen) datasetPath(in *Input, o obs) {
+	d := func() (d obs) {
+		defer func() {
+			if r := recover(); r != nil {
+				d = obs{panic: true, msg: fmt.Sprint(r)}
+			}
+		}()
+		ds := ld.NewRDFDataset()
+		ds.Graphs["@default"] = []*ld.Quad{ld.NewQuad(ld.NewIRI("urn:c04:s"), ld.NewIRI("urn:c04:p"),
+			ld.NewLiteral(in.Str, in.DT, ""), "")}
+		es, err := merklize.EntriesFromRDFWithHasher(ds, g.recs[in.Hasher])
+		if err != nil {
+			return obs{msg: err.Error()}
+		}
+		if len(es) != 1 {
+			return obs{panic: true, msg: fmt.Sprintf("%d entries for one quad", len(es))}
+		}
+		v, err := es[0].ValueMtEntry()
+		if err != nil {
+			return obs{msg: err.Error()}
+		}
+		if v == nil {
+			return obs{panic: true, msg: "nil result with nil error"}
+		}
+		return obs{ok: true, val: v}
+	}()
+	g.rep.Evaluations++
+	g.rep.Count("dataset-path:" + shortDT(in.DT))
+	if d.panic {
+		g.rep.Fail("c04-panic", "dataset path: panic or nil/nil result: "+d.msg, in)
+		return
+	}
+	if d.ok != o.ok || (d.ok && d.val.Cmp(o.val) != 0) {
+		g.rep.Fail("c04-dataset-path-differs", fmt.Sprintf("HashValueWithHasher: ok=%v %v (%s); as the literal of a dataset: ok=%v %v (%s)",
+			o.ok, o.val, o.msg, d.ok, d.val, d.msg), in)
+	}
 }
 
 func shortDT(dt string) string {
